@@ -7,7 +7,7 @@ What surrounds PacketTransmitter in USB3LinkLayer and is modelled here (only leg
     ignored until our LRTY has gone out; at link entry it advertises LGOOD(m) then LCRD A,B,C,D;
   * named mismatches ("mischief"): an LGOOD with a number that is not the next one, an LCRD with a wrong letter, a
     stray LRTY, a plain link-down; an LBAD that overtakes the LGOODs still pending for the headers received before
-    the corrupted one (case["overtake"]: those LGOODs, with their correct numbers and in order, then arrive AFTER
+    the corrupted one (case["overtake"] = dict(lbads, ack_delay, corrupt): those LGOODs, with their correct numbers and in order, then arrive AFTER
     the LBAD -- at their own pace, or the first of them aimed at the end of the packet the DUT has in flight); when the DUT raises recovery_required the LTSSM takes the link down in the next
     cycle (enable low), as ltssm.py does, and a new link entry with a fresh advertisement follows;
   * our own HeaderPacketReceiver's LRTY path: lrty_pending rises the cycle after retry_required and falls once the
@@ -55,7 +55,10 @@ class TxPartner:
     def __init__(self, case, max_idle=80):
         self.case = case
         self.hdrs = case["hdrs"]
-        self.noise = deque(case.get("noise", []))
+        ov = case.get("overtake") or {}
+        self.ov_lbads = ov.get("lbads", [])            # per corrupted header [kind, off, lbad_delay]
+        self.ov_ack = ov.get("ack_delay") or None      # slow acknowledger: several LGOODs pending
+        self.noise = deque(ov.get("corrupt") or case.get("noise", []))
         self.mischief = sorted([list(m) for m in case.get("mischief", [])], key=lambda m: m[1])
         self.spat = list(case.get("sready", [1])) or [1]
         if not any(self.spat):
@@ -154,12 +157,12 @@ class TxPartner:
         corrupt = self.noise.popleft() if self.noise else 0
         if not (f["crc16_ok"] and f["crc5_ok"]):
             corrupt = 1                               # the DUT itself sent a header with a bad CRC
-        a = cyc(self.case.get("slow_ack") or self.case.get("ack_delay", []), self.ack_i, 2)
+        a = cyc(self.ov_ack or self.case.get("ack_delay", []), self.ack_i, 2)
         self.ack_i += 1
         if corrupt:
             rec["verdict"] = "bad"
             self.ignoring = True
-            ov = cyc(self.case.get("overtake", []), self.lbad_i, None)
+            ov = cyc(self.ov_lbads, self.lbad_i, None)
             self.lbad_i += 1
             if ov and ov[0] in ("free", "aim") and self.acks and all(e[3] == "ack" for e in self.acks):
                 # ordering mismatch: the LBAD is sent before the LGOODs that are still pending for earlier headers
